@@ -36,6 +36,13 @@ GATE = "Verifier2"
 MAPTYPE = dict(hash=1, array=2, prog=3, percpu=6)
 
 
+def note(ctx, msg):
+    if os.environ.get("X10_VERBOSE"):
+        import sys
+        import time
+        print(f"[x10 {time.time() - ctx.t0:6.1f}s] {msg}", file=sys.stderr, flush=True)
+
+
 # ---- the kernel ------------------------------------------------------------------------------------------
 
 class Maps:
@@ -126,6 +133,7 @@ def run_model(ctx, wd, module, cases, tag, workers=2, parallel=8):
             verdict.update(out)
             errors.update(err)
             ctx.tlc_stats(res)
+    note(ctx, f"{module} done")
     return verdict, errors
 
 
@@ -175,13 +183,6 @@ def select(ctx, items):
             # the thorough corpus has about 4.5 times the programs; the few library / extra programs get more each
             out.append((it, cnt if ctx.quick else cnt * 8 if step == 1 else cnt * 2))
     return out
-
-
-def note(ctx, msg):
-    if os.environ.get("X10_VERBOSE"):
-        import sys
-        import time
-        print(f"[x10 {time.time() - ctx.t0:6.1f}s] {msg}", file=sys.stderr, flush=True)
 
 
 def run(ctx):
